@@ -149,6 +149,16 @@ pub fn format_all_routes(f: &F, n: &Narsese) -> Result<String, String> {
     if s != s3 {
         return Err(format!("format_narsese gives {s:?} but the FormatTo route gives {s3:?}"));
     }
+    // the trait called on the bare value, and the generic `format` entry point given the bare value
+    use narsese::api::FormatTo;
+    let (s4, s5) = match n {
+        Narsese::Term(t) => (t.format_to(f.e), f.e.format(t)),
+        Narsese::Sentence(x) => (x.format_to(f.e), f.e.format(x)),
+        Narsese::Task(t) => (t.format_to(f.e), f.e.format(t)),
+    };
+    if s != s4 || s != s5 {
+        return Err(format!("format_narsese gives {s:?} but FormatTo on the bare value gives {s4:?} / {s5:?}"));
+    }
     Ok(s)
 }
 
